@@ -1433,6 +1433,39 @@ func ruleC12DecidedByEqual(c *Ctx) {
 			continue
 		}
 		c.R.OK(rule, kw+":uses-equality", c.pos(call), "decided by the equality function on (keyword value, instance)")
+		// the comparison is made whatever the instance: no test of the instance itself (its validity, kind, nilness)
+		// stands before it, only tests of the schema
+		{
+			onInst := ""
+			atoms := guardsLocal(call)
+			for d := call.Block(); d != nil; d = d.Idom() {
+				if len(d.Preds) < 2 || d.Comment != "if.then" {
+					continue
+				}
+				for _, p := range d.Preds {
+					if ifi, ok := p.Instrs[len(p.Instrs)-1].(*ssa.If); ok {
+						atoms = append(atoms, guardAtom{Cond: ifi.Cond, Pol: p.Succs[0] == d, At: ifi})
+					}
+				}
+			}
+			for _, g := range atoms {
+				if g.At.Parent() != call.Parent() {
+					continue
+				}
+				for _, v := range append(backSlice(g.Cond, 8), g.Cond) {
+					cc, ok := v.(*ssa.Call)
+					if !ok || len(cc.Call.Args) == 0 || !isSame(cc.Call.Args[0]) {
+						continue
+					}
+					switch core.CalleeKey(&cc.Call) {
+					case "reflect.Value.IsValid", "reflect.Value.IsNil", "reflect.Value.IsZero", "reflect.Value.Len":
+						// (the kind tests of the wrapper-stripping loop stand before everything and are left out)
+						onInst = c.pos(cc)
+					}
+				}
+			}
+			c.R.Check(onInst == "", rule, kw+":compared-whatever-the-instance", c.pos(call), "no test of the instance stands before the comparison", "whether "+kw+" is compared with the instance at all depends on a test of the instance (at "+onInst+"): for the instances that fail the test (null, say) the keyword is passed over, so `const: 5` accepts null")
+		}
 		// the failure exit of the keyword: error returns control dependent on the keyword's presence test must depend on the equality result
 		okDep := false
 		c.eachFamOwn(m.E, func(i ssa.Instruction) {
